@@ -22,6 +22,15 @@ SUBST = {
     ],
 }
 
+# file -> list of (literal text, replacement): call sites given a scheduling point. A pattern
+# that is no longer in the file is skipped with a note (the hook is then simply unused).
+TEXT = {
+    "internal/wire/pack.go": [
+        ("dns.PackRR(", "verifPackRR("),
+        ("packStatePool.Put(state)", "packStatePool.Put(state); verifAfterRelease()"),
+    ],
+}
+
 def load_subst():
     extra = os.path.join(VERIF, "overlay", "subst.json")
     if os.path.exists(extra):
@@ -67,6 +76,8 @@ def main():
                     sys.exit(2)
                 replace[os.path.join(REPO, rel)] = os.path.join(root, f)
     # 3. import substitution
+    for f in TEXT:
+        SUBST.setdefault(f, [])
     for f, subs in SUBST.items():
         src_path = os.path.join(REPO, f)
         if not os.path.exists(src_path):
@@ -75,6 +86,11 @@ def main():
         out = os.path.join(BUILD, "shim", f)
         os.makedirs(os.path.dirname(out), exist_ok=True)
         new = rewrite(open(src_path).read(), subs, f)
+        for a, b in TEXT.get(f, []):
+            if a in new:
+                new = new.replace(a, b)
+            else:
+                sys.stderr.write("overlay: note: %s has no %r\n" % (f, a))
         old = open(out).read() if os.path.exists(out) else None
         if old != new:
             open(out, "w").write(new)
